@@ -24,6 +24,17 @@ CLASSICAL_FAULTS_NA = ["message-loss", "message-duplication", "message-reorderin
                        "crash-restart", "torn-write", "disk-error", "clock-skew(wall)", "failing-syscall", "thread-preemption"]
 
 
+COMMON_SPACE = (" || Common to all families: boxes of dimension 1-3 mixing unit, shifted, negative, dyadic, large-offset (1e6) and narrow "
+                "(1e-3) sides, written with float or int bounds and, for cubes, also as [[lo, hi]] * d (shared rows); partitions Binary, "
+                "RandomBinary, DimensionBinary, K-ary and RandomK-ary with K in 2..5; budgets half round numbers, half arbitrary integers; "
+                "reward programs constant / zero / negative / integer-tied / Gaussian / objective / late maximum / alternating sign / few "
+                "levels / monotone-to-a-corner / decaying / ramp / Bernoulli / scores, scaled by 1e6, 1e-9 or -1, riding on offsets up to "
+                "1e8, typed float / int / np.float64 / np.bool_ / np.uint8 / np.int8; np.random owned by the simulator (scripted policies "
+                "with forced end-point, first/last/least-likely outcomes, or the real generator under a logged seed); get_last_point "
+                "interjected between rounds and between a pull and its reward where that is a read; a neighbour instance of the same class "
+                "built before and stepped between the rounds of the instance under test.  Every run executes in its own forked child.")
+
+
 def registry():
     from . import checks
     return checks.CHECKS
@@ -564,13 +575,13 @@ def run_check(prop, tier, seed, workers=None, n_override=None, budget_s=None):
 def write_evidence(chk, prop, tier, seed, agg, wall, det, known_seen, witness, nviol, N, replays, regress=None):
     os.makedirs(EVIDENCE_DIR, exist_ok=True)
     fired = dict(sorted(agg["fired"].items()))
-    for k in chk.fault_kinds:
+    for k in list(chk.fault_kinds) + ["interject-query", "mid-round-query", "neighbour"]:
         fired.setdefault(k, 0)
     unreached = sorted(p for p in chk.probe_names if not agg["probes"].get(p))
     cov = {
         "evaluations": agg["n"],
         "distinct_nontrivial": len(agg["keys"]),
-        "rule": chk.rule,
+        "rule": chk.rule + COMMON_SPACE,
         "samples": agg["samples"][:3],
         "planned_runs": N,
         "runs_skipped_by_deadline": agg["skipped"],
